@@ -12,9 +12,16 @@ from vlib import ber_ref as B
 from vlib import build, driver, model as M, rigp, runner, specs
 
 PID = "C06"
-BASE = (1, 3, 6, 1, 4, 1, 9, 2)
-U = [BASE[:-1] + (1, 7), BASE, BASE + (1,), BASE + (2,), BASE + (2, 1), BASE + (3,), BASE[:-1] + (3,),
-     BASE + (300,), BASE + (16383,), BASE + (16384,)]   # arcs whose BER encodings differ in length: 82 2c / ff 7f / 81 80 00
+BASES = [(1, 3, 6, 1, 4, 1, 9, 2), (1, 3, 6, 1, 4, 1, 9, 127), (1, 3, 6, 1, 4, 1, 9, 16383)]   # (all-ones base-128 last arcs too)
+
+
+def universe(base):
+    return [base[:-1] + (base[-1] - 1, 7), base, base + (1,), base + (2,), base + (2, 1), base + (3,), base[:-1] + (base[-1] + 1,),
+            base + (300,), base + (16383,), base + (16384,)]   # arcs whose BER encodings differ in length: 82 2c / ff 7f / 81 80 00
+
+
+BASE = BASES[0]
+U = universe(BASE)
 KINDS = ["int", "null", "nso", "nsi", "eomv"]
 VB = [(oi, k) for oi in range(len(U)) for k in KINDS]   # 35 varbind choices
 TLV = {"null": B.enc_null(), "nso": M.EXC_TLV["NoSuchObject"], "nsi": M.EXC_TLV["NoSuchInstance"], "eomv": M.EXC_TLV["EndOfMibView"]}
@@ -70,9 +77,9 @@ def worker(job):
                 reply = []
                 for oi, kind in script[k]:
                     st["serial"] += 1
-                    reply.append((U[oi], kind, st["serial"]))
+                    reply.append((st["U"][oi], kind, st["serial"]))
             else:
-                reply = [((req.oids() or [BASE])[0], "eomv", 0)]
+                reply = [((req.oids() or [st["U"][1]])[0], "eomv", 0)]
             st["ex"].append((req.oids()[0] if req.oids() else (), reply))
             if len(st["ex"]) > len(script) + 4:
                 return None  # stop feeding a runaway walk: it will time out
@@ -84,6 +91,9 @@ def worker(job):
     drv.call("open")
     for si, (op, script) in enumerate(job["cases"]):
         prog.mark({"cfg": cfg.key(), "case": si})
+        BASE = BASES[(si // 7) % len(BASES)]
+        U = universe(BASE)
+        st["U"] = U
         if op.startswith("getbulk") and cfg.version == "v1":
             op = op.replace("getbulk", "getnext")
         retry = op.endswith("_retry")
